@@ -1574,18 +1574,19 @@ def add_extremes(prog, seed, huge=True):
     return p
 
 
-def generator_collect_family(seed, n, prefix="gc"):
+def generator_collect_family(seed, n, prefix="gc", with_try=True):
     """n programs that each hold at least one collect form whose source is a generator ([e for x in g(..) | c]); such forms
     are rare in the plain family (a generator function must already exist where a list is wanted), so they are drawn by
-    rejection.  Every third program also has exceptions (a throw in the generator or in the element expression unwinds
-    through the gathering frame)."""
+    rejection.  with_try: every third program also has exceptions (a throw in the generator or in the element expression
+    unwinds through the gathering frame); the checks that run at -Q2 and above leave this to the feature draw, because try
+    expressions are where the optimiser's recorded defects live."""
     import json as _json
     out = []
     i = 0
     while len(out) < n and i < 60 * n + 200:
         g = ProgGen(seed * 100003 + i, emph=("call",) if i % 2 else ())
         g.feat |= {"fun", "gen", "coll", "list", "for", "filt"}
-        if i % 3 == 0:
+        if with_try and i % 3 == 0:
             g.feat |= {"try"}
             g.exns = g.exns or ["Ex0", "Ex1"]
         p = g.program("%s%d_%d" % (prefix, seed, i))
